@@ -1,7 +1,99 @@
-(** C17 — exported statements. *)
-From Coq Require Import List Bool ZArith.
-Require Import Nib.C17.AnteFacts Nib.C17.MsgTree Nib.C17.Model Nib.C17.Spec Nib.C17.Proofs.
+(** C17 — no transaction can set a validator commission above the 25 % cap.
+    This file holds only the exported statements.
 
+    [c : cfg] is what the code is (read off the generated facts: which decorator checks what, whether it
+    recurses into MsgExec, whether the wasm handler applies the check, the MAX_COMMISSION constant);
+    [w : world] is deployment state (which contracts reflect messages for whom, the gov account, the ICA host
+    allow-list).  Message trees are arbitrary: any nesting depth, any mix of authz MsgExec / wasm dispatch /
+    gov proposals / ICA packets, any position among sibling messages, any grants, any clock. *)
+From Coq Require Import List Bool ZArith.
+Import ListNotations.
+Require Import Nib.C17.AnteFacts Nib.C17.MsgTree Nib.C17.Model Nib.C17.Spec Nib.C17.Proofs.
+Local Open Scope Z_scope.
+
+(** The cap over every reachable state: after ANY history of transactions and passed proposals from a
+    state that respects the cap, every validator's commission is at most 25 %.
+    PARTIAL in exactly two named respects:
+      [ica_safe w]      — the ICA-host allow-list admits no staking message and no message carrier
+                          (the list installed by upgrade v1.3.0 admits MsgExec: see
+                          C17_cap_refuted_ica_allows_exec; this path cannot be driven without an IBC
+                          counter-party and stays an open finding);
+      [gov_trusted c h] — proposals that governance PASSED would pass the commission check (they are executed
+                          by the EndBlocker, not by a transaction; see C17_cap_refuted_gov_untrusted). *)
+Theorem C17_cap_partial :
+  forall (c : cfg) (w : world) (s0 : st) (h : list event),
+    cfg_ok c -> ica_safe w -> cap_ok s0 -> gov_trusted c h -> cap_ok (run_history c w s0 h).
+Proof. exact cap_invariant. Qed.
+Print Assumptions C17_cap_partial.
+
+(** Full strength for transactions (no governance events): authz MsgExec at ANY depth, wasm-dispatched
+    messages, proposals submitted (not executed), in any combination. *)
+Theorem C17_cap_all_transactions :
+  forall (c : cfg) (w : world) (s0 : st) (h : list event),
+    cfg_ok c -> ica_safe w -> cap_ok s0 -> only_txs h -> cap_ok (run_history c w s0 h).
+Proof. exact cap_invariant_txs. Qed.
+Print Assumptions C17_cap_all_transactions.
+
+(** The literal statement, from ANY pre-state (even one that already violates the cap): a transaction
+    leaves every validator either exactly as it was or with a rate of at most 25 % — "no accepted
+    transaction creates a validator with, or edits a validator to, a commission rate above 25 %". *)
+Theorem C17_no_tx_sets_rate_above_cap :
+  forall (c : cfg) (w : world) (s : st) (x : tx),
+    cfg_ok c -> ica_safe w -> changed_capped s (fst (deliver c w s x)).
+Proof. intros c w s x Hc Hi. exact (tx_never_raises_above_cap c w s x Hc Hi). Qed.
+Print Assumptions C17_no_tx_sets_rate_above_cap.
+
+(** One message tree of any shape that passed the commission check cannot break the cap. *)
+Theorem C17_checked_tree_keeps_cap :
+  forall (c : cfg) (w : world) (s0 : st), cfg_ok c -> ica_safe w ->
+  forall (t : msg) (s s' : st), dec_rejects c 0 t = false -> changed_capped s0 s ->
+    run_msg c w t s = Some s' -> changed_capped s0 s'.
+Proof. exact run_msg_inv. Qed.
+Print Assumptions C17_checked_tree_keeps_cap.
+
+(** The boolean reading of the facts used by the generated obligation is sound. *)
+Theorem C17_cfg_checker_sound : forall c, cfg_okb c = true -> cfg_ok c.
+Proof. exact cfg_okb_sound. Qed.
+Print Assumptions C17_cfg_checker_sound.
+
+(** The boolean checker evaluated on implementation traces is sound for [P]. *)
 Theorem C17_checker_sound : forall t, Pb t = true -> P t.
 Proof. exact Pb_sound. Qed.
 Print Assumptions C17_checker_sound.
+
+(** ---- what the statement needs: each weakening is refuted by a concrete history ---- *)
+
+(** Decorator inspecting top-level messages only (the tree before fix ac46b2c):
+    MsgExec{grantee = self, [MsgCreateValidator 0.90]} stores a validator with 90 %. *)
+Theorem C17_cap_refuted_before_fix :
+  exists h, only_txs h /\ breaks_cap (run_history cfg_before_fix world_plain (st0 0) h).
+Proof. exact refuted_before_fix. Qed.
+Print Assumptions C17_cap_refuted_before_fix.
+
+(** Looking one level into MsgExec (as AnteDecoratorAuthzGuard does) is not enough. *)
+Theorem C17_cap_refuted_one_level_decorator :
+  exists h, only_txs h /\ breaks_cap (run_history cfg_one_level world_plain (st0 0) h).
+Proof. exact refuted_one_level. Qed.
+Print Assumptions C17_cap_refuted_one_level_decorator.
+
+(** Recursive decorator, wasm handler without the check (the tree before fix 248a6e6). *)
+Theorem C17_cap_refuted_without_wasm_check :
+  exists h, only_txs h /\ breaks_cap (run_history cfg_no_wasm_check world_plain (st0 0) h).
+Proof. exact refuted_without_wasm_check. Qed.
+Print Assumptions C17_cap_refuted_without_wasm_check.
+
+(** OPEN: the committed code with an ICA host whose allow-list admits MsgExec. *)
+Theorem C17_cap_refuted_ica_allows_exec :
+  exists h, only_txs h /\ breaks_cap (run_history cfg_fixed world_ica_exec (st0 0) h).
+Proof. exact refuted_ica_allows_exec. Qed.
+Print Assumptions C17_cap_refuted_ica_allows_exec.
+
+(** A passed proposal is not checked: [gov_trusted] cannot be dropped. *)
+Theorem C17_cap_refuted_gov_untrusted :
+  exists h, breaks_cap (run_history cfg_fixed world_plain (st0 0) h).
+Proof. exact refuted_gov_untrusted. Qed.
+Print Assumptions C17_cap_refuted_gov_untrusted.
+
+Theorem C17_breaks_cap_contradicts_cap_ok : forall s, breaks_cap s -> ~ cap_ok s.
+Proof. exact breaks_cap_not_ok. Qed.
+Print Assumptions C17_breaks_cap_contradicts_cap_ok.
